@@ -2,6 +2,9 @@ import PQ.Lemmas.SrcEquiv
 import PQ.Lemmas.SrcEquivStore
 import PQ.Lemmas.SrcEquivDQ
 import PQ.Lemmas.SrcEquivOps
+import PQ.Lemmas.SrcEquivStore2
+import PQ.Lemmas.SrcEquivPush
+import PQ.Lemmas.SrcEquivOps2
 /-!
 # Source-translated tie: audit file
 
@@ -37,8 +40,21 @@ comparison counter `ticks`), the same result value, the same fault with the same
 | `DoublePriorityQueue::pop_max`                   | `SrcGen.dqPopMax`     | `DQ.popMax`      | `SrcEquiv.dqPopMax`       |
 | `DoublePriorityQueue::remove`                    | `SrcGen.dqRemove`     | `DQ.remove`      | `SrcEquiv.dqRemove`       |
 
-NOT tied this way (sampled correspondence check only): `push`, `push_increase`, `push_decrease`, `change_priority`,
-`change_priority_by`, `pop_if`-family, `peek*`, iterators, `append` / `extend` / `retain*`, `From` / `FromIterator`, serde.
+| `Store::clear` (+ statement order pinned by `storeClear_order`) | `SrcGen.storeClear` | `Store.clear` | `SrcEquiv.storeClear` |
+| `Store::drain` (value carries the tables/size at hand-out: empty) | `SrcGen.storeDrain` | `Store.drain` | `SrcEquiv.storeDrain` |
+| `Store::retain_mut`                              | `SrcGen.storeRetainMut` | `Store.retainMut` | `SrcEquiv.storeRetainMut` |
+| `Store::append`                                  | `SrcGen.storeAppend`  | `Store.append`   | `SrcEquiv.storeAppend`    |
+| `Store::swap_remove_if`                          | `SrcGen.storeSwapRemoveIf` | `Store.swapRemoveIf` | `SrcEquiv.storeSwapRemoveIf` |
+| `Store::change_priority`                         | `SrcGen.storeChangePriority` | `Store.changePriority` | `SrcEquiv.storeChangePriority` |
+| `Store::change_priority_by`                      | `SrcGen.storeChangePriorityBy` | `Store.changePriorityBy` | `SrcEquiv.storeChangePriorityBy` |
+| `PriorityQueue::push` / `DoublePriorityQueue::push` | `SrcGen.pqPush` / `dqPush` | `MaxQ.push` / `DQ.push` | `SrcEquiv.pqPush` / `dqPush` |
+| `change_priority`, `change_priority_by` (both)   | `SrcGen.{pq,dq}ChangePriority{,By}` | `{MaxQ,DQ}.changePriority{,By}` | `SrcEquiv.{pq,dq}ChangePriority{,By}` |
+| `push_increase`, `push_decrease` (both)          | `SrcGen.{pq,dq}Push{In,De}crease` | `{MaxQ,DQ}.push{In,De}crease` | `SrcEquiv.{pq,dq}Push{In,De}crease` |
+| `pop_if`, `pop_min_if`, `pop_max_if`             | `SrcGen.pqPopIf`, `dqPopMinIf`, `dqPopMaxIf` | `MaxQ.popIf`, `DQ.popMinIf`, `DQ.popMaxIf` | `SrcEquiv.pqPopIf`, … |
+| `peek`, `peek_min`, `peek_max`                   | `SrcGen.pqPeek`, `dqPeekMin`, `dqPeekMax` | `MaxQ.peek`, `DQ.peekMin`, `DQ.peekMax` | `SrcEquiv.pqPeek`, … |
+| `peek_mut`, `peek_min_mut`, `peek_max_mut` (+ the caller's write `w`) | `SrcGen.pqPeekMut`, … | `MaxQ.peekMutWrite`, `DQ.peek{Min,Max}MutWrite` | `SrcEquiv.pqPeekMut`, … |
+
+NOT tied this way: see `PQ/Model/SRC_README.md`.
 
 Trusted: the Python translator and the interpreter's reading of the primitives (see `PQ/Model/SRC_README.md`).
 -/
@@ -126,3 +142,30 @@ end PQ.SrcTie
 #print axioms PQ.SrcEquiv.dqPopMin
 #print axioms PQ.SrcEquiv.dqPopMax
 #print axioms PQ.SrcEquiv.dqRemove
+#print axioms PQ.SrcEquiv.storeClear
+#print axioms PQ.SrcEquiv.storeClear_order
+#print axioms PQ.SrcEquiv.storeDrain
+#print axioms PQ.SrcEquiv.storeRetainMut
+#print axioms PQ.SrcEquiv.storeAppend
+#print axioms PQ.SrcEquiv.storeSwapRemoveIf
+#print axioms PQ.SrcEquiv.storeChangePriority
+#print axioms PQ.SrcEquiv.storeChangePriorityBy
+#print axioms PQ.SrcEquiv.pqPush
+#print axioms PQ.SrcEquiv.dqPush
+#print axioms PQ.SrcEquiv.pqChangePriority
+#print axioms PQ.SrcEquiv.dqChangePriority
+#print axioms PQ.SrcEquiv.pqChangePriorityBy
+#print axioms PQ.SrcEquiv.dqChangePriorityBy
+#print axioms PQ.SrcEquiv.pqPushIncrease
+#print axioms PQ.SrcEquiv.pqPushDecrease
+#print axioms PQ.SrcEquiv.dqPushIncrease
+#print axioms PQ.SrcEquiv.dqPushDecrease
+#print axioms PQ.SrcEquiv.pqPopIf
+#print axioms PQ.SrcEquiv.dqPopMinIf
+#print axioms PQ.SrcEquiv.dqPopMaxIf
+#print axioms PQ.SrcEquiv.pqPeek
+#print axioms PQ.SrcEquiv.dqPeekMin
+#print axioms PQ.SrcEquiv.dqPeekMax
+#print axioms PQ.SrcEquiv.pqPeekMut
+#print axioms PQ.SrcEquiv.dqPeekMinMut
+#print axioms PQ.SrcEquiv.dqPeekMaxMut
